@@ -40,10 +40,12 @@ class Pred:
 
 
 def mk_net(loop):
-    net = object.__new__(Network)
-    net._expected_response_futures = []
-    net._MESSAGE_MAP = {}
-    net._event_bus = EventBus()
+    # the real constructor (so that state a change adds in __init__ exists); nothing is started or connected
+    from aioslsk.settings import Settings, CredentialsSettings
+    settings = Settings(credentials=CredentialsSettings(username='me', password='pw'))
+    settings.network.upnp.enabled = False
+    net = loop.call(Network, settings, EventBus())
+    net._MESSAGE_MAP = {}      # the network's own handlers for incoming messages are not the subject here
     net.sent = []
 
     async def send_server_messages(*msgs):
@@ -169,6 +171,10 @@ def h_dispatch(c, kinds, n_msgs=2):
             loop.call(w['fut'].cancel)
             w['pre_cancelled'] = True
     for j in range(n_msgs):
+        if j and c.choose(2, f'loop_turn_before_msg{j}') == 1:
+            # the messages are not buffered back-to-back: the loop gets a turn in between (done callbacks run)
+            loop.run_ready()
+            c.reach('loop_turn_between_messages')
         mk = c.pick(MSG_KINDS, f'msgkind{j}')
         conn, msg = make_message(c, net, mk, j)
         before = [w['fut'].done() for w in waiters]
@@ -389,13 +395,13 @@ META = {
                   Network.register_response_future, Network._remove_response_future, Network.on_message_received,
                   Network.wait_for_server_message, Network.wait_for_peer_message, SoulSeekClient.execute,
                   GetUserStatusCommand.build_expected_response],
-    'stubs': ['Network built with object.__new__ and only _expected_response_futures/_MESSAGE_MAP/_event_bus (real EventBus) set',
+    'stubs': ['Network built with its real constructor (real Settings, real EventBus), nothing started or connected; its own _MESSAGE_MAP emptied',
               'send_server_messages -> recorder', 'asyncio event loop -> engine.vloop.VLoop (virtual time)',
               'user/peer/file names are Int tokens while symbolic and strings in concrete replay (only ==/!= is applied to them)'],
     'data_variables': ['ticket (0..2^32-1)', 'status 0..3', 'predicate threshold k', 'user / peer / file name tokens (4 values each)',
                        'privileged / allowed flags'],
     'discriminants': ['registration API and matcher shape per waiter (11 kinds incl. None-valued matchers)', 'optional fields of the reply absent/present', 'cancelled-this-iteration per waiter', 'message kind (4)',
-                      'number of back-to-back messages', 'timeout scenario'],
+                      'number of messages, back-to-back or with a loop turn in between', 'timeout scenario'],
     'bounds': {'quick': {'waiters': '1..2 (all 11 kinds, all pairs)', 'messages_back_to_back': 2, 'timeouts': [10, 60]},
                'thorough': {'waiters': '1..3 (all kinds; triples over 5 representative kinds)', 'messages_back_to_back': 2}},
     'outside': ['more waiters/messages than the bound', 'other message classes (matching code is class-generic)',
